@@ -210,7 +210,9 @@ def gen_case(draw):
     k = draw(st.integers(0, n - 1))
     return dict(system=sysd, rows=rows, W=W, proc=proc, batch_size=bs, op=op, perm=list(perm), extra=extra, k=k,
                 layout=draw(st.sampled_from(["C", "F", "strided"])), entry=draw(st.sampled_from(["function", "function", "estimator"])),
-                verbose=draw(st.sampled_from([0, 0, 1])))
+                verbose=draw(st.sampled_from([0, 0, 1])),
+                # variance minimisation: the attainable error supplied by the caller as ONE number for all samples (norm=)
+                norm=(draw(st.sampled_from([None, None, None, 1e4])) if proc == "minimize" else None))
 
 
 def body_gen(case):
@@ -220,6 +222,8 @@ def body_gen(case):
     n = B.shape[0]
     W = None if case["W"] is None else np.maximum(np.asarray(case["W"], dtype=float), 0.5)
     opt = {} if proc == "excitation" else dict(HIGH)
+    if case.get("norm") is not None:
+        opt["norm"] = float(case["norm"])
     tol = TOLS[proc]
     try:
         ref = run_proc(proc, sv, B, W, 1, opt)
